@@ -194,7 +194,7 @@ func gen(t *rapid.T) Case {
 	if !synth && clonedClass == "" && rapid.IntRange(0, 19).Draw(t, "manyCallers") == 19 {
 		target := c.Class + "." + c.Old
 		for i, u := range p.Units {
-			if u.Kind != "Class" || u.FullName() == c.Class || len(p.Files[i].Text) > 20000 {
+			if u.Kind != "Class" || u.FullName() == c.Class || len(p.Files[i].Text) > 20000 || len([]rune(u.Name)) < 3 {
 				continue
 			}
 			calls := false
@@ -213,7 +213,12 @@ func gen(t *rapid.T) Case {
 			units := append([]jgen.UnitTruth(nil), c.Project.Units...)
 			ok := true
 			for k := 0; k < n && ok; k++ {
-				twin := fmt.Sprintf("Zq%02d%s", k, u.Name)
+				// a name of the same length (the first two characters replaced): every site keeps its line and column
+				r := []rune(u.Name)
+				twin := string(rune('A'+k/26)) + string(rune('a'+k%26)) + string(r[2:])
+				if twin == u.Name {
+					twin = "Zz" + string(r[2:])
+				}
 				for _, f := range p.Files {
 					if strings.Contains(f.Text, twin) {
 						ok = false
